@@ -111,12 +111,12 @@ fn make_real_tree(sc: &Scenario) -> std::io::Result<()> {
         }
         std::fs::write(&p, b"")?;
     }
-    for (path, text) in &sc.real_files {
-        let p = std::path::Path::new(&root).join(path);
+    for rf in &sc.real_files {
+        let p = std::path::Path::new(&root).join(&rf.path);
         if let Some(parent) = p.parent() {
             std::fs::create_dir_all(parent)?;
         }
-        std::fs::write(&p, text)?;
+        std::fs::write(&p, &rf.bytes)?;
     }
     std::env::set_current_dir(&root)
 }
@@ -313,20 +313,9 @@ fn run_scenario_inner(sc: &Scenario, watchdog: Duration) -> RunResult {
     }
 }
 
-/// The recording logger installed by the stand-in for `stderrlog`.
-pub struct SimLogger;
-
-impl log::Log for SimLogger {
-    fn enabled(&self, metadata: &log::Metadata) -> bool {
-        metadata.level() <= log::max_level()
+/// Entry point of the stand-in for `stderrlog`: one record into the simulated world.
+pub fn record_log(level: &str, message: String) {
+    if let Some(w) = WORLD.get() {
+        w.log_record(level, message);
     }
-    fn log(&self, record: &log::Record) {
-        if !self.enabled(record.metadata()) {
-            return;
-        }
-        if let Some(w) = WORLD.get() {
-            w.log_record(record.level().as_str(), format!("{}", record.args()));
-        }
-    }
-    fn flush(&self) {}
 }
